@@ -18,8 +18,12 @@ def random_bus_ops(rng, n):
             ops.append({"op": "bus_read", "a": a})
         elif k < 0.95:
             ops.append({"op": "set_input", "k": rng.randrange(4), "v": rng.randrange(256)})
-        elif k < 0.98:
+        elif k < 0.97:
             ops.append({"op": "set_di1", "v": rng.randrange(256)})
+        elif k < 0.985:
+            from checks import isa_common as ic
+            ops += [o for o in ic.board_irq_ops(rng) if o["op"] != "edge"]
+            ops += [{"op": "bus_read", "a": 0xF3}, {"op": "bus_read", "a": 0xF1}]
         else:
             ops.append({"op": "key_int"})
     ops.append({"op": "checkpoint"})
@@ -72,7 +76,7 @@ def run(tier, seed, replay):
         "exhaustive": True,
         "single_ops_replayed": res["singles"], "address_pairs_replayed": res["pairs"],
         "random_trace_events_validated": nev,
-        "rule": "TLC enumerates 3 pre-states x 256 addresses (invariant over all 256 bytes) and all 65 536 ordered pairs of "
+        "rule": "TLC enumerates 4 pre-states x 256 addresses (invariant over all 256 bytes) and all 65 536 ordered pairs of "
                 "write addresses, checking Bus.tla against the map model; each case is replayed on the real Bus and the "
                 "signature compared; plus random op sequences validated event by event (C10 fields only)",
     }
